@@ -4,3 +4,5 @@ pub mod c04;
 pub mod c06;
 pub mod c07;
 pub mod common;
+pub mod c08;
+pub mod c09;
